@@ -790,6 +790,9 @@ class Emitter:
         f = e[1]; args = e[2]
         if f[0] == 'member':
             obj_e, mname, arrow = f[1], f[2], f[3]
+            if obj_e[0] == 'id' and obj_e[1] in getattr(cx, 'lockvars', {}) and mname in ('lock', 'unlock') and not args:
+                # std::unique_lock::unlock() / lock(): the critical section ends / resumes here
+                return ('%s(&%s)' % ('VB_UNLOCK' if mname == 'unlock' else 'VB_LOCK', cx.lockvars[obj_e[1]]), None)
             mark = self.touch_mark(cx)
             ot, oty = self.ex(obj_e, cx)
             kind = self.member_kind(oty) if oty is not None else None
@@ -1244,6 +1247,8 @@ class Emitter:
             m, _ = self.ex(init[0], cx)
             cx.declare(name, ty)
             cx.locks.append(m)
+            if not hasattr(cx, 'lockvars'): cx.lockvars = {}
+            cx.lockvars[name] = m
             cx.cleanup[-1].append('VB_UNLOCK(&%s);' % m)
             return pad + 'VB_LOCK(&%s);\n' % m
         kind = self.member_kind(ty)
